@@ -129,14 +129,16 @@ ezc3d::DataNS::Frame &ezc3d::DataNS::Data::frame_nonConst(size_t idx)
 
 void ezc3d::DataNS::Data::frame(const ezc3d::DataNS::Frame &frame, size_t idx)
 {
+    // frame may be an element of _frames: keep its content alive while the vector grows
+    const ezc3d::DataNS::Frame source(frame);
     if (idx == SIZE_MAX) {
         _frames.resize(_frames.size() + 1);
-        _frames.back().add(frame);
+        _frames.back().add(source);
     }
     else {
         if (idx >= _frames.size())
             _frames.resize(idx+1);
-        _frames[idx].add(frame);
+        _frames[idx].add(source);
     }
 }
 
